@@ -181,7 +181,7 @@ def run(chk):
     chk.register_replayer('c05', replay)
     chk.out_of_claim("the positivity verdict of Cholesky itself, the nuclear norm / eigenvalues computed by LAPACK, concurrence and GME closed forms (eigh), symmetric / bosonic extension SDPs; "
                      "the criteria's soundness theorems themselves (PPT, reduction, realignment) are used, not re-proved")
-    dims_list = [(2, 2), (2, 3)] if quick else [(2, 2), (2, 3), (3, 2), (2, 2, 2)]
+    dims_list = [(2, 2), (2, 3), (3, 2)] if quick else [(2, 2), (2, 3), (3, 2), (2, 2, 2), (2, 4), (4, 2)]     # permuted unequal dims back to back: state kept between calls must not leak
     chk.bound(dims=[list(d) for d in dims_list], product_terms='2 (linearity in rho extends the routing identity to any number of terms)', weights='symbolic, p_k >= 0',
               kernel_error='nuclear norm returned within 1e-12 of its exact value')
     # ---- 1. routing of is_ppt / check_reduction_witness: the matrix whose positivity is tested is the one the theorem is about
